@@ -170,4 +170,138 @@ theorem C12_local (x1 x2 x : ℝ) (y1 y2 : Dual ℝ) (h1 : y1.WF) (h2 : y2.WF) (
     · exact hn2 h
     · exact hn1 h
 
+/-! ### exact sensitivities of the log-linear and zero-rate rules -/
+
+theorem jetOf_log (y : Dual ℝ) (h : y.WF) (v : String) :
+    (Dual.log y).WF ∧ jetOf (Dual.log y) v = (Real.log y.real, 1 / y.real * den y v) :=
+  ⟨wf_scaleL _ _ _ h, Prod.ext rfl (den_scaleL y (1 / y.real) h _ v)⟩
+
+theorem jetOf_exp (y : Dual ℝ) (h : y.WF) (v : String) :
+    (Dual.exp y).WF ∧ jetOf (Dual.exp y) v = (Real.exp y.real, Real.exp y.real * den y v) :=
+  ⟨wf_scaleL _ _ _ h, Prod.ext rfl (den_scaleL y (Transc.exp y.real) h _ v)⟩
+
+theorem jetOf_mulF (y : Dual ℝ) (c : ℝ) (h : y.WF) (v : String) :
+    (Dual.mulF y c).WF ∧ jetOf (Dual.mulF y c) v = (y.real * c, c * den y v) :=
+  ⟨wf_scaleL _ _ _ h, Prod.ext rfl (den_scaleL y c h _ v)⟩
+
+theorem linearInterp_wf (x1 x2 x : ℝ) (y1 y2 : Dual ℝ) (h1 : y1.WF) (h2 : y2.WF) :
+    (linearInterp (α := ℝ) x1 y1 x2 y2 x).WF := by
+  have S := sub_spec false y2 y1 h2 h1 (by simp)
+  have hm := (jetOf_mulF (Dual.sub false y2 y1) ((x - x1) / (x2 - x1)) S.wf "").1
+  exact (add_spec false y1 _ h1 hm (by simp)).wf
+
+/-- the log-linear rule as a formula of C01's grammar -/
+noncomputable def logLinExpr (c : ℝ) : Expr :=
+  .exp (.add (.log (.leaf 0)) (.mul (.sub (.log (.leaf 1)) (.log (.leaf 0))) (.const c)))
+
+/-- Gradient of a log-linear look-up = the C01 jet of the formula `exp(log y₁ + (log y₂ − log y₁)·c)`. -/
+theorem C12_grad_log_linear (x1 x2 x : ℝ) (y1 y2 : Dual ℝ) (h1 : y1.WF) (h2 : y2.WF) (v : String) :
+    jetOf (logLinearInterp (α := ℝ) x1 y1 x2 y2 x) v
+      = evalJ (logLinExpr ((x - x1) / (x2 - x1))) (fun i => if i = 0 then jetOf y1 v else jetOf y2 v) := by
+  obtain ⟨w1, j1⟩ := jetOf_log y1 h1 v
+  obtain ⟨w2, j2⟩ := jetOf_log y2 h2 v
+  have L := C12_grad_linear x1 x2 x (Dual.log y1) (Dual.log y2) w1 w2 v
+  have wl := linearInterp_wf x1 x2 x (Dual.log y1) (Dual.log y2) w1 w2
+  obtain ⟨_, je⟩ := jetOf_exp _ wl v
+  show jetOf (Dual.exp (linearInterp (α := ℝ) x1 (Dual.log y1) x2 (Dual.log y2) x)) v = _
+  rw [je]
+  have hr : (linearInterp (α := ℝ) x1 (Dual.log y1) x2 (Dual.log y2) x).real
+      = (jetOf (linearInterp (α := ℝ) x1 (Dual.log y1) x2 (Dual.log y2) x) v).1 := rfl
+  have hd : den (linearInterp (α := ℝ) x1 (Dual.log y1) x2 (Dual.log y2) x) v
+      = (jetOf (linearInterp (α := ℝ) x1 (Dual.log y1) x2 (Dual.log y2) x) v).2 := rfl
+  rw [hr, hd, L]
+  have d1 : den (Dual.log y1) v = 1 / y1.real * den y1 v := congrArg Prod.snd j1
+  have d2 : den (Dual.log y2) v = 1 / y2.real * den y2 v := congrArg Prod.snd j2
+  have r1 : (Dual.log y1).real = Real.log y1.real := rfl
+  have r2 : (Dual.log y2).real = Real.log y2.real := rfl
+  simp only [logLinExpr, linExpr, evalJ, jetOf, if_true, d1, d2, r1, r2]
+  simp
+
+
+/-- the zero-rate rule as a formula of C01's grammar: `exp(−t · (r₁ + (r₂ − r₁)·c))`, `rᵢ = log yᵢ · aᵢ` -/
+noncomputable def zeroRateExpr (a1 a2 c mt : ℝ) : Expr :=
+  .exp (.mul (.add (.mul (.log (.leaf 0)) (.const a1))
+      (.mul (.sub (.mul (.log (.leaf 1)) (.const a2)) (.mul (.log (.leaf 0)) (.const a1))) (.const c)))
+    (.const mt))
+
+/-- … and when the left node IS the first node (t₁ = 0): the right node's rate alone -/
+noncomputable def zeroRateExpr0 (a2 mt : ℝ) : Expr :=
+  .exp (.mul (.mul (.log (.leaf 1)) (.const a2)) (.const mt))
+
+
+/-- Gradient of a zero-rate look-up = the C01 jet of the rule's formula (both branches). -/
+theorem C12_grad_zero_rate (x0 x1 x2 x : ℝ) (y1 y2 : Dual ℝ) (h1 : y1.WF) (h2 : y2.WF) (v : String) :
+    (x1 - x0 ≠ 0 →
+      jetOf (linearZeroInterp (α := ℝ) x0 x1 y1 x2 y2 x) v
+        = evalJ (zeroRateExpr (-1 / (x1 - x0)) (-1 / (x2 - x0))
+            ((x - x0 - (x1 - x0)) / (x2 - x0 - (x1 - x0))) (-(x - x0)))
+            (fun i => if i = 0 then jetOf y1 v else jetOf y2 v)) ∧
+    (x1 - x0 = 0 →
+      jetOf (linearZeroInterp (α := ℝ) x0 x1 y1 x2 y2 x) v
+        = evalJ (zeroRateExpr0 (-1 / (x2 - x0)) (-(x - x0)))
+            (fun i => if i = 0 then jetOf y1 v else jetOf y2 v)) := by
+  obtain ⟨w1, j1⟩ := jetOf_log y1 h1 v
+  obtain ⟨w2, j2⟩ := jetOf_log y2 h2 v
+  obtain ⟨wr1, jr1⟩ := jetOf_mulF (Dual.log y1) (-1 / (x1 - x0)) w1 v
+  obtain ⟨wr2, jr2⟩ := jetOf_mulF (Dual.log y2) (-1 / (x2 - x0)) w2 v
+  have d1 : den (Dual.log y1) v = 1 / y1.real * den y1 v := congrArg Prod.snd j1
+  have d2 : den (Dual.log y2) v = 1 / y2.real * den y2 v := congrArg Prod.snd j2
+  have e1 : den (Dual.mulF (Dual.log y1) (-1 / (x1 - x0))) v = -1 / (x1 - x0) * den (Dual.log y1) v :=
+    congrArg Prod.snd jr1
+  have e2 : den (Dual.mulF (Dual.log y2) (-1 / (x2 - x0))) v = -1 / (x2 - x0) * den (Dual.log y2) v :=
+    congrArg Prod.snd jr2
+  constructor
+  · intro hne
+    have hb : Transc.eqb (x1 - x0) (0 : ℝ) = false := by
+      show decide (x1 - x0 = 0) = false; exact decide_eq_false hne
+    -- the interpolated rate r = r1 + (r2 - r1) c is a straight-line rule on (r1, r2)
+    set R1 := Dual.mulF (Dual.log y1) (-1 / (x1 - x0)) with hR1
+    set R2 := Dual.mulF (Dual.log y2) (-1 / (x2 - x0)) with hR2
+    have S := sub_spec false R2 R1 wr2 wr1 (by simp)
+    set c := (x - x0 - (x1 - x0)) / (x2 - x0 - (x1 - x0)) with hc
+    obtain ⟨wm, jm⟩ := jetOf_mulF (Dual.sub false R2 R1) c S.wf v
+    have A := add_spec false R1 (Dual.mulF (Dual.sub false R2 R1) c) wr1 wm (by simp)
+    obtain ⟨wt, jt⟩ := jetOf_mulF (Dual.add false R1 (Dual.mulF (Dual.sub false R2 R1) c)) (-(x - x0)) A.wf v
+    obtain ⟨_, je⟩ := jetOf_exp _ wt v
+    have hform : linearZeroInterp (α := ℝ) x0 x1 y1 x2 y2 x
+        = Dual.exp (Dual.mulF (Dual.add false R1 (Dual.mulF (Dual.sub false R2 R1) c)) (-(x - x0))) := by
+      simp only [linearZeroInterp, hb, NumOps.add, NumOps.sub, NumOps.mulF, NumOps.log, NumOps.exp]
+      rfl
+    rw [hform, je]
+    have dt : den (Dual.mulF (Dual.add false R1 (Dual.mulF (Dual.sub false R2 R1) c)) (-(x - x0))) v
+        = -(x - x0) * den (Dual.add false R1 (Dual.mulF (Dual.sub false R2 R1) c)) v := congrArg Prod.snd jt
+    have dm : den (Dual.mulF (Dual.sub false R2 R1) c) v = c * den (Dual.sub false R2 R1) v :=
+      congrArg Prod.snd jm
+    have rt : (Dual.mulF (Dual.add false R1 (Dual.mulF (Dual.sub false R2 R1) c)) (-(x - x0))).real
+        = (Dual.add false R1 (Dual.mulF (Dual.sub false R2 R1) c)).real * (-(x - x0)) := rfl
+    have rm : (Dual.mulF (Dual.sub false R2 R1) c).real = (Dual.sub false R2 R1).real * c := rfl
+    have rr1 : R1.real = Real.log y1.real * (-1 / (x1 - x0)) := rfl
+    have rr2 : R2.real = Real.log y2.real * (-1 / (x2 - x0)) := rfl
+    refine Prod.ext ?_ ?_
+    · simp only [zeroRateExpr, evalJ, jetOf, if_true, rt, A.real, rm, S.real, rr1, rr2]
+      simp
+    · simp only [zeroRateExpr, evalJ, jetOf, if_true, rt, A.real, rm, S.real, rr1, rr2, dt, A.den, dm,
+        S.den, e1, e2, d1, d2]
+      simp
+      ring
+  · intro heq
+    have hb : Transc.eqb (x1 - x0) (0 : ℝ) = true := by
+      show decide (x1 - x0 = 0) = true; exact decide_eq_true heq
+    set R2 := Dual.mulF (Dual.log y2) (-1 / (x2 - x0)) with hR2
+    obtain ⟨wt, jt⟩ := jetOf_mulF R2 (-(x - x0)) wr2 v
+    obtain ⟨_, je⟩ := jetOf_exp _ wt v
+    have hform : linearZeroInterp (α := ℝ) x0 x1 y1 x2 y2 x = Dual.exp (Dual.mulF R2 (-(x - x0))) := by
+      simp only [linearZeroInterp, hb, NumOps.mulF, NumOps.log, NumOps.exp]
+      rfl
+    rw [hform, je]
+    have dt : den (Dual.mulF R2 (-(x - x0))) v = -(x - x0) * den R2 v := congrArg Prod.snd jt
+    have rt : (Dual.mulF R2 (-(x - x0))).real = R2.real * (-(x - x0)) := rfl
+    have rr2 : R2.real = Real.log y2.real * (-1 / (x2 - x0)) := rfl
+    refine Prod.ext ?_ ?_
+    · simp only [zeroRateExpr0, evalJ, jetOf, rt, rr2]
+      simp
+    · simp only [zeroRateExpr0, evalJ, jetOf, rt, rr2, dt, e2, d2]
+      simp
+      ring
+
 end Rateslib
